@@ -23,6 +23,8 @@ CONSTANTS
     AccessOuts, GetOuts, CallOuts, QueryOuts,  \* answer classes
     Tokens,     \* token values
     Patterns,   \* reset patterns
+    Shapes,     \* malformed / inapplicable event shapes (harness catalogue)
+    BadOuts,    \* malformed response shapes ("bad:<shape>")
     Features,   \* enabled action groups
     Weights,    \* sequence of action classes; simulation draws a class uniformly from it
     MaxSteps
@@ -127,6 +129,10 @@ Time(ms) ==
     /\ Has("time") /\ UNCHANGED open
     /\ Emit([op |-> "time", ms |-> ms], 1, 0)
 
+SvcInject(n, shape) ==
+    /\ Has("inject") /\ UNCHANGED open
+    /\ Emit([op |-> "inject", n |-> n, shape |-> shape], 1, 0)
+
 SvcStop(kind) ==
     /\ Has("stop") /\ UNCHANGED open
     /\ Emit([op |-> kind], 0, 0)
@@ -143,6 +149,7 @@ NextC(cls) ==
             \/ \E p \in 0..1, out \in CallOuts : \E rr \in ResRids : Reply("call", p, out, rr) \/ Reply("auth", p, out, rr)
             \/ \E p \in 0..1, out \in QueryOuts : Reply("query", p, out, "")
             \/ \E p \in 0..1 : Reply("", p, "ok", "")
+            \/ \E p \in 0..1, out \in BadOuts : Has("inject") /\ Reply("", p, out, "")
       [] cls = "cli" ->
             \/ \E c \in Conns, v \in Vers : CliOpen(c, v)
             \/ \E c \in Conns, r \in Rids : CliSubscribe(c, r) \/ CliGet(c, r) \/ CliUnsubscribe(c, r)
@@ -153,6 +160,7 @@ NextC(cls) ==
             \/ \E n \in Names, a \in 0..2, v \in Vals \ {[t |-> "x", v |-> ""]} : SvcAdd(n, a, v)
             \/ \E n \in Names, a \in 0..2 : SvcRemove(n, a)
             \/ \E n \in Names : SvcCustom(n)
+            \/ \E n \in Names, sh \in Shapes : SvcInject(n, sh)
       [] cls = "trig" ->
             \/ \E n \in Names : SvcDelete(n) \/ SvcReaccess(n) \/ SvcQuery(n)
             \/ \E n \in Names, a \in 0..1, k \in Keys, v \in Vals : SvcMutate(n, a, k, v)
